@@ -42,10 +42,10 @@ func uid(_ spec.RoomID, s spec.SenderID) (*spec.UserID, error) {
 	return spec.NewUserID(string(s), true)
 }
 
-var tamperNames = []string{"none", "content-unprotected", "content-protected", "top-junk", "hash-altered", "hash-removed", "unsigned", "age_ts", "outlier", "destinations", "redacts-top", "depth", "sticky", "msc4354_sticky", "event_id-top", "event_id-twice", "unsigned-twice", "age_ts-twice"}
+var tamperNames = []string{"none", "content-unprotected", "content-protected", "top-junk", "hash-altered", "hash-removed", "unsigned", "age_ts", "outlier", "destinations", "redacts-top", "depth", "sticky", "msc4354_sticky", "event_id-top", "event_id-twice", "unsigned-twice", "age_ts-twice", "event_id-casefold", "event_id-kelvin", "unsigned-casefold"}
 
 // redactable[t]: the tampering touches only material that redaction removes or that is stripped on receipt
-var redactableOnly = map[string]bool{"none": true, "content-unprotected": true, "top-junk": true, "unsigned": true, "age_ts": true, "outlier": true, "destinations": true, "sticky": true, "msc4354_sticky": true, "event_id-top": true, "event_id-twice": true, "unsigned-twice": true, "age_ts-twice": true}
+var redactableOnly = map[string]bool{"none": true, "content-unprotected": true, "top-junk": true, "unsigned": true, "age_ts": true, "outlier": true, "destinations": true, "sticky": true, "msc4354_sticky": true, "event_id-top": true, "event_id-twice": true, "unsigned-twice": true, "age_ts-twice": true, "event_id-casefold": true, "event_id-kelvin": true, "unsigned-casefold": true}
 
 func set(v *refjson.Value, key string, val *refjson.Value) *refjson.Value {
 	out := &refjson.Value{Kind: refjson.Object}
@@ -140,6 +140,21 @@ func tamper(version string, v *refjson.Value, t string) (*refjson.Value, bool) {
 		}
 		out.Members = append(out.Members, refjson.Member{Key: key, Val: lit(vals[1])})
 		return out, true
+	case "event_id-casefold", "event_id-kelvin", "unsigned-casefold":
+		// a top-level key that is NOT one of the stripped keys (JSON member names are case sensitive) but that a decoder
+		// matching field names case-insensitively takes for one: "Event_ID", "event_Kd" has no k to fold, so the
+		// Kelvin-sign variant is put on unsigned's s instead ("unſigned", long s); all are junk keys outside every keep-list
+		key, val := "Event_ID", `"$forged_by_case"`
+		switch t {
+		case "event_id-kelvin":
+			key, val = "un\u017figned", `{"forged":"long-s"}`
+		case "unsigned-casefold":
+			key, val = "Unsigned", `{"forged":"case"}`
+		}
+		if t == "event_id-casefold" && row.EventFormat == 1 {
+			return nil, false
+		}
+		return set(v, key, lit(val)), true
 	case "sticky", "msc4354_sticky": // top-level keys outside every keep-list that an accessor (IsSticky / StickyEndTime) reads
 		return set(v, t, lit(`{"duration_ms":600000}`)), true
 	}
@@ -326,7 +341,7 @@ func runCase(r *harness.Run, c c04Case) error {
 func main() { harness.Main("C04", "model_checking", run) }
 
 func run(r *harness.Run) {
-	r.Rule("every built event of the proto-event alphabet (9 type/state-key shapes x contents) x all 16 room versions x every single and every pair of 17 tamperings (incl. an added top-level event_id in formats 2 / 3, and event_id / unsigned / age_ts present twice) (unprotected / protected content key, extra top-level key, hash altered / removed, unsigned, age_ts, outlier, destinations, top-level redacts, depth, top-level sticky / msc4354_sticky) plus the untampered event, parsed with NewEventFromUntrustedJSON; additionally each tampered copy is parsed after the genuine copy and again after another tampered copy (history sensitivity). Oracle: Redacted() <=> reference content-hash mismatch; JSON()/Content()/Redacts()/Unsigned()/StickyEndTime()/IsSticky()/headered JSON equal the reference redaction (refredact) resp. the intact event; redactable-only tampering keeps the event ID and the signature verdict. Non-trivial = distinct (version, event, tampering set).")
+	r.Rule("every built event of the proto-event alphabet (9 type/state-key shapes x contents) x all 16 room versions x every single and every pair of 17 tamperings (incl. an added top-level event_id in formats 2 / 3, event_id / unsigned / age_ts present twice, and junk keys that differ from event_id / unsigned only in letter case or by a Unicode case-fold) (unprotected / protected content key, extra top-level key, hash altered / removed, unsigned, age_ts, outlier, destinations, top-level redacts, depth, top-level sticky / msc4354_sticky) plus the untampered event, parsed with NewEventFromUntrustedJSON; additionally each tampered copy is parsed after the genuine copy and again after another tampered copy (history sensitivity). Oracle: Redacted() <=> reference content-hash mismatch; JSON()/Content()/Redacts()/Unsigned()/StickyEndTime()/IsSticky()/headered JSON equal the reference redaction (refredact) resp. the intact event; redactable-only tampering keeps the event ID and the signature verdict. Non-trivial = distinct (version, event, tampering set).")
 	r.Assume("sha256/ed25519 trusted", "signature verdicts are taken through a static verifier holding the signers' keys (key validity is C06/C12)")
 	r.OnReplay("case", func(raw json.RawMessage) error {
 		var c c04Case
